@@ -164,6 +164,31 @@ func runOne(r *driver.Run) {
 	var d *dawg.Dawg
 	accepted := []string{}
 	rejected := 0
+	if mode == 0 && len(words) >= 2 && t.Chance(1, 4) {
+		// New with a list that is NOT strictly increasing (one word moved or repeated) must fail
+		bad := make([][]byte, 0, len(words)+1)
+		for _, w := range words {
+			bad = append(bad, []byte(w))
+		}
+		i := t.Draw(len(words))
+		if t.Chance(1, 2) {
+			bad = append(bad[:i+1], bad[i:]...) // duplicate words[i]
+		} else {
+			j := t.Draw(len(words))
+			if i == j {
+				j = (i + 1) % len(words)
+			}
+			bad[i], bad[j] = bad[j], bad[i]
+		}
+		var err error
+		var dd *dawg.Dawg
+		r.Must("dawg.New", budget, func() { dd, err = dawg.New(bad) })
+		r.Logf("New(list that is not strictly increasing) -> err=%v", err)
+		r.Fault("rejected-list")
+		if err == nil {
+			r.Fail("invalid-accepted", "New", "New accepted a list that is not strictly increasing (%d words, position %d disturbed) and returned a Dawg with %d words", len(bad), i, dd.NumberOfWords())
+		}
+	}
 	if mode == 0 {
 		list := make([][]byte, len(words))
 		for i, w := range words {
